@@ -119,11 +119,19 @@ func (g *arbGen) emit(t types.Type) {
 		w("\tvar v %s\n\tfor i := range v {\n\t\tv[i] = %s(p+\"[]\", depth)\n\t}\n\treturn v\n", ts, g.fn(u.Elem()))
 	case *types.Slice:
 		w("\tn := verifArbShape(p)\n\tif n == 0 {\n\t\treturn nil\n\t}\n")
-		w("\tv := make(%s, n-1)\n\tfor i := range v {\n\t\tv[i] = %s(p+\"[]\", depth)\n\t}\n\treturn v\n", ts, g.fn(u.Elem()))
+		if nilable(u.Elem()) {
+			w("\tv := make(%s, n-1)\n\tfor i := range v {\n\t\tif verifArbNilElem(i) {\n\t\t\tcontinue\n\t\t}\n\t\tv[i] = %s(p+\"[]\", depth)\n\t}\n\treturn v\n", ts, g.fn(u.Elem()))
+		} else {
+			w("\tv := make(%s, n-1)\n\tfor i := range v {\n\t\tv[i] = %s(p+\"[]\", depth)\n\t}\n\treturn v\n", ts, g.fn(u.Elem()))
+		}
 	case *types.Map:
 		w("\tn := verifArbShape(p)\n\tif n == 0 {\n\t\treturn nil\n\t}\n")
 		w("\tv := %s{}\n", ts)
-		w("\tkeys := []string{\"k1\", \"k2\"}\n\tfor i := 0; i < n-1; i++ {\n\t\tv[%s(keys[i])] = %s(p+\"[k]\", depth)\n\t}\n\treturn v\n", g.typeStr(u.Key()), g.fn(u.Elem()))
+		if nilable(u.Elem()) {
+			w("\tkeys := []string{\"k1\", \"k2\"}\n\tfor i := 0; i < n-1; i++ {\n\t\tif verifArbNilElem(i) {\n\t\t\tvar z %s\n\t\t\tv[%s(keys[i])] = z\n\t\t\tcontinue\n\t\t}\n\t\tv[%s(keys[i])] = %s(p+\"[k]\", depth)\n\t}\n\treturn v\n", g.typeStr(u.Elem()), g.typeStr(u.Key()), g.typeStr(u.Key()), g.fn(u.Elem()))
+		} else {
+			w("\tkeys := []string{\"k1\", \"k2\"}\n\tfor i := 0; i < n-1; i++ {\n\t\tv[%s(keys[i])] = %s(p+\"[k]\", depth)\n\t}\n\treturn v\n", g.typeStr(u.Key()), g.fn(u.Elem()))
+		}
 	case *types.Interface:
 		impls := g.eq.implementors(t)
 		// keep the fan-out small: message.Message gets three representative kinds (each kind has its own harness)
@@ -153,6 +161,15 @@ func (g *arbGen) emit(t types.Type) {
 	}
 }
 
+// nilable: element types whose zero value is nil (a null entry of a collection)
+func nilable(t types.Type) bool {
+	switch t.Underlying().(type) {
+	case *types.Slice, *types.Map, *types.Pointer, *types.Interface:
+		return true
+	}
+	return false
+}
+
 func firstPrimitive(impls []types.Type) types.Type {
 	for _, it := range impls {
 		if strings.Contains(types.TypeString(it, nil), "PrimitiveType") {
@@ -164,7 +181,9 @@ func firstPrimitive(impls []types.Type) types.Type {
 
 const arbLib = `
 // shape enumeration for generated values: verifArbMode 0: every site one element / non-nil; 1: two elements;
-// 2: every site nil; 3: every site empty; 4+2i: site i nil; 5+2i: site i empty (others one element).
+// 2: every site nil; 3: every site empty; 4: two elements, the second element of every collection of nil-able
+// elements is nil (a null entry after a non-null one); 5: two elements, the first one nil;
+// 6+2i: site i nil; 7+2i: site i empty (others one element).
 var verifArbMode, verifArbCounter int
 var verifArbForceNonNil bool
 var verifArbPickSite, verifArbPickCounter int
@@ -172,7 +191,7 @@ var verifArbPickSite, verifArbPickCounter int
 func verifArbSetup(maxSites int) {
 	verifArbCounter = 0
 	verifArbPickCounter = 0
-	verifArbMode = nd.Choice("shape", 4+2*maxSites)
+	verifArbMode = nd.Choice("shape", 6+2*maxSites)
 	verifArbPickSite = -1
 	if verifArbMode <= 1 {
 		// dynamic types are varied at one site at a time (covering design), on the fully populated shapes
@@ -193,16 +212,23 @@ func verifArbShape(site string) int {
 		return 0
 	case verifArbMode == 3:
 		return 1
-	case verifArbMode == 4+2*i:
+	case verifArbMode == 4 || verifArbMode == 5:
+		return 3
+	case verifArbMode == 6+2*i:
 		return 0
-	case verifArbMode == 5+2*i:
+	case verifArbMode == 7+2*i:
 		return 1
 	}
 	return 2
 }
 
+// verifArbNilElem: in the null-entry shapes, element i of a collection of nil-able elements is left nil
+func verifArbNilElem(i int) bool {
+	return (verifArbMode == 4 && i == 1) || (verifArbMode == 5 && i == 0)
+}
+
 func verifArbDone() {
-	if verifArbMode >= 4 && (verifArbMode-4)/2 >= verifArbCounter {
+	if verifArbMode >= 6 && (verifArbMode-6)/2 >= verifArbCounter {
 		nd.Assume(false)
 	}
 }
